@@ -158,6 +158,9 @@ func runC09(c *config) {
 			c09ConcurrentIsolated(c)
 			return
 		}
+		if c09NamedReplay(c, rp.Detail) {
+			return
+		}
 		w := uint64(rp.Detail["width"].(float64))
 		if v, ok := rp.Detail["value"].(string); ok {
 			x, _ := new(big.Int).SetString(v, 10)
@@ -340,6 +343,7 @@ func runC09(c *config) {
 			o.Pass("through_parser")
 		}
 	}
+	c09NamedTypes(c, newRng(c.seed, "c09named")) // 6c. literals at named integer types, every spelling, every position (c09named.go)
 	// 7. one literal text at several widths in one module: the value of a literal depends on the width of its
 	// type (s0x reads a sign bit, a decimal may not fit), so what one occurrence meant says nothing about the next
 	for i := 0; i < 150*c.scale; i++ {
